@@ -12,24 +12,29 @@ from harness.lib import common
 
 PROP = 'C16'
 PROP_FILE = 'Props/C16.v'
-THEOREMS = ['C16_line_structure', 'C16_target', 'C16_one_host', 'C16_no_cross_host_state']
+THEOREMS = ['C16_line_structure', 'C16_reading_unique', 'C16_target', 'C16_one_host', 'C16_no_cross_host_state']
 TRUSTED = [
     'hand-written model Model/HttpReq.v of request.py/web.py/stream.py/namevalue.py/cookiewrapper.py/processor/web.py, '
     'tied by the vm_compute correspondence of this run (bytes of every hop + how the fetch ended)',
     'URL parsing is NOT part of this model: parsed components (scheme, hostname, port, path, query, user-info and their '
-    'normalised forms) are inputs; hypothesis url_clean (no char <= 0x20 or >= 0x7F in them) is checked on every generated '
-    'URL against the real parser by this harness and proved elsewhere (C10)',
+    'normalised forms) are inputs; hypothesis url_clean (every char in 0x21..0xFF: no control character, no space, one latin-1 byte) is checked on every generated '
+    'URL against the real parser by this harness; C10 proves the narrower printable-ASCII statement',
     'the cookie jar (http.cookiejar + wpull policy) is an oracle "header value wanted for a URL"; modelled is wpull\'s glue '
     '(copy-in through urllib.request.Request, "Cookie already present" rule, clear, copy-out); which cookies belong to a URL '
     '(domain/path matching, incl. http.cookiejar sending a host-only cookie of example.com to sub.example.com) is the library\'s',
-    'field names are the title-cased names NameValueRecord keeps; str.title()/str.capitalize() round trip through urllib is '
-    'taken as identity (true for ASCII names; generated header names are ASCII)',
+    'field names are the title-cased names NameValueRecord keeps (normalize_name is not modelled: the harness passes the names the '
+    'real record holds); str.title()/str.capitalize() round trip through urllib is taken as identity (true for ASCII names; '
+    'generated header names are ASCII); the theorems assume no request-factory field is another spelling of Host/Cookie/'
+    'Authorization/Referer (fname), sampled on every case',
+    'the reader read_head of Spec/HttpWire.v (CRLF lines, first empty line ends the head, SP-split request line, first-colon '
+    'field split, leading OWS dropped) as the meaning of "what the receiver sees"',
     'fake connection pool / scripted connection of harness/impl/c16_impl.py (captures the first write of each exchange)',
 ]
 ASSUMPTIONS = [
-    'url_clean: components of a normalised URL contain only characters 0x21..0x7E (sampled: checked on every URL of every case)',
-    'fields made by the request factory (--user-agent, --referer, --header, ...) contain no CR/LF and none is named Host/Cookie/Authorization '
-    '(user-supplied; a stated precondition of the theorems; the correspondence also runs cases that break it)',
+    'url_clean: components of a parsed URL contain only characters 0x21..0xFF (sampled: checked on every URL of every case)',
+    'base_ok: fields made by the request factory (--user-agent, --referer, --header, ...) have names that are non-empty printable ASCII '
+    'without space/colon in the spelling NameValueRecord keeps, values without CR/LF, and none is named Host/Cookie/Authorization '
+    '(user-supplied; a stated precondition of the theorems, sampled on every case; the correspondence also runs cases that break it)',
     'the cookie jar\'s header value contains no CR/LF (sampled on every jar answer of every case)',
     'http.cookiejar adds the Cookie header only when the request has none, as unredirected header listed first (sampled through the byte comparison)',
 ]
@@ -242,7 +247,7 @@ CLEAN_KEYS = ('scheme', 'hostname', 'path', 'query', 'user_enc', 'pass_enc')
 def url_clean(c):
     if not c or not c.get('relative'):
         return True
-    return all(0x21 <= ord(ch) <= 0x7E for k in CLEAN_KEYS for ch in c[k])
+    return all(0x21 <= ord(ch) <= 0xFF for k in CLEAN_KEYS for ch in c[k])
 
 
 def py_hwp(c):
@@ -260,12 +265,15 @@ def py_basic(user, pw):
 
 def _creds(c, login):
     """Authorization values that belong to URL c (its own user-info, completed by the global --http-user login)"""
+    # the property text forbids credentials of ANOTHER host; the global login belongs to every host, so any pairing of
+    # this URL's user-info with the login is accepted here (the Coq theorem own_credentials states the exact pairing of
+    # the code, and the model/implementation byte comparison enforces it)
     out = set()
-    for lu, lp in ([tuple(login)] if login else []) + [('', '')]:
-        user = c['user'] or lu
-        pw = c['pass'] or lp
-        if user and pw:
-            out.add(py_basic(user, pw))
+    lu, lp = tuple(login) if login else ('', '')
+    for user in (c['user'], lu):
+        for pw in (c['pass'], lp):
+            if user and pw:
+                out.add(py_basic(user, pw))
     return out
 
 
@@ -299,6 +307,23 @@ def parse_wire(b):
     return probs, method, target, version, fields
 
 
+DERIVED = ('Host', 'Cookie', 'Authorization', 'Referer')
+
+
+def base_ok(res):
+    """the precondition base_ok of the theorems, evaluated on the real request-factory fields"""
+    for n, vs in res.get('base', []):
+        if not n or not all(0x21 <= ord(ch) <= 0x7E and ch != ':' for ch in n):
+            return False
+        if any(n.lower() == d.lower() and n != d for d in DERIVED):
+            return False
+        if n in ('Host', 'Cookie', 'Authorization') and vs:
+            return False
+        if any('\r' in v or '\n' in v for v in vs):
+            return False
+    return True
+
+
 def base_has(res, name):
     return any(n.lower() == name for n, vs in res['base'] if vs)
 
@@ -308,10 +333,8 @@ def check_case(case, res):
     out = []
     if 'hops' not in res:
         return out
-    urls = [res['u0'], res.get('parent')] + [h['url'] for h in res['hops']] + \
-           [l for l in res['locs'] if isinstance(l, dict)]
-    if not all(url_clean(u) for u in urls):
-        return out                      # outside: url_clean is C10's theorem (F03)
+    # evaluated on EVERY case, also outside the theorems' url_clean precondition: a parser that lets a space or
+    # a control character through breaks the property on the wire, whatever module is responsible
     login = case.get('login')
     answers = res.get('jar', [])
     for i, hop in enumerate(res['hops']):
@@ -482,7 +505,7 @@ def _run(cases, with_model=True):
         copy_fails = True
     dist = {'cases': len(cases), 'skipped_unparseable': 0, 'requests_written': 0, 'outside_url_clean': 0,
             'end': {}, 'status_then_request': {}, 'with_proxy_absolute_target': 0, 'jar_answers': 0,
-            'jar_answers_with_cookie': 0, 'userinfo_urls': 0, 'ipv6_or_idn_hops': 0}
+            'jar_answers_with_cookie': 0, 'userinfo_urls': 0, 'ipv6_or_idn_hops': 0, 'outside_base_ok': 0}
     terms = []
     index = []
     nontriv = set()
@@ -498,6 +521,8 @@ def _run(cases, with_model=True):
         clean = all(url_clean(u) for u in urls)
         if not clean:
             dist['outside_url_clean'] += 1
+        if not base_ok(r):
+            dist['outside_base_ok'] += 1
         for i, hp in enumerate(r['hops']):
             if hp.get('sent'):
                 dist['requests_written'] += 1
@@ -523,7 +548,7 @@ def _run(cases, with_model=True):
                 disagreements.append({'case': c, 'note': 'implementation ended with %s, which the model does not describe' % (r['end'],)})
             continue
         tags = _interesting(c, r)
-        if tags and clean:
+        if tags and clean and base_ok(r):
             nontriv.add(tuple(h.get('sent') for h in r['hops']))
         terms.append(t)
         index.append(ci)
@@ -547,12 +572,89 @@ def _run(cases, with_model=True):
     return results, disagreements, dist, nontriv, len(terms)
 
 
+# --------------------------------------------------------------------------
+# end to end: the real application over real sockets against the scripted site server
+# (what the harness server receives), cross-host redirects over all five codes
+# --------------------------------------------------------------------------
+E2E_CODES = (301, 302, 303, 307, 308)
+E2E_HOST_OF_PATH = {'/': 'h1', '/go': 'h1', '/land': 'h2', '/deep': 'h2'}
+
+
+def _e2e_spec(ctx, code, variant):
+    from harness.fakes import crawl
+    site = {'h1': {'/': {'body': crawl.html(links=['/go']), 'headers': {'Set-Cookie': 'sid=S1; Path=/'}},
+                   '/go': {'status': code, 'location': 'http://h2:{PORT}/land'}, '/robots.txt': {'status': 404}},
+            'h2': {'/land': {'body': crawl.html(links=['/deep'])}, '/deep': {'body': 'leaf'},
+                   '/robots.txt': {'status': 404}}}
+    args = ['http://u1:p1@h1:{PORT}/', '-r', '-l', '4', '--span-hosts', '--no-robots', '--tries', '1']
+    if variant == 'login':
+        # the second host asks for authentication: only the global login may answer, never u1:p1
+        site['h2']['/land'] = {'status': 401, 'headers': {'WWW-Authenticate': 'Basic realm="r"'}, 'body': 'no'}
+        args += ['--http-user', 'lu', '--http-password', 'lp']
+    return {'args': args, 'site': site, 'repo': ctx.repo}
+
+
+def _e2e_check(code, variant, r):
+    """-> (violations, nontrivial?) on the request log of one crawl"""
+    out = []
+    port = r.get('port')
+    own = py_basic('u1', 'p1')
+    saw_h2 = saw_state_h1 = False
+    for q in r.get('requests', []):
+        exp = E2E_HOST_OF_PATH.get(q['path'])
+        if exp is None:
+            continue
+        h = q.get('headers', {})
+        if q.get('hosthdr') != '%s:%s' % (exp, port):
+            out.append(('one_host', 'request for %s of %s carries Host %r' % (q['path'], exp, q.get('hosthdr'))))
+        if exp == 'h2':
+            saw_h2 = True
+            if 'sid=S1' in (h.get('cookie') or ''):
+                out.append(('cross_host_state', 'cookie of h1 sent to h2 (%s)' % q['path']))
+            if h.get('authorization') == own:
+                out.append(('cross_host_state', 'URL credentials of h1 sent to h2 (%s)' % q['path']))
+            if '@' in (h.get('referer') or '').partition('://')[2].split('/')[0]:
+                out.append(('cross_host_state', 'Referer with user-info sent to h2 (%s)' % q['path']))
+        elif 'sid=S1' in (h.get('cookie') or '') and h.get('authorization') == own:
+            saw_state_h1 = True
+    return out, (saw_h2 and saw_state_h1)
+
+
+def _e2e(ctx):
+    from concurrent.futures import ThreadPoolExecutor
+    from harness.fakes import crawl
+    jobs = [(code, v) for code in E2E_CODES for v in ('plain', 'login')]
+    with ThreadPoolExecutor(6) as ex:
+        results = list(ex.map(lambda j: crawl.run_crawl(_e2e_spec(ctx, *j)), jobs))
+    viol, nontriv, disagreements, samples = [], 0, [], []
+    for (code, v), r in zip(jobs, results):
+        if r.get('exit_code') is None or not r.get('requests'):
+            disagreements.append({'note': 'end-to-end crawl did not run', 'code': code, 'variant': v,
+                                  'stderr': r.get('stderr_tail', '')[-400:]})
+            continue
+        vs, nt = _e2e_check(code, v, r)
+        nontriv += 1 if nt else 0
+        if not nt:
+            disagreements.append({'note': 'end-to-end crawl did not reach the second host with cookie and credentials on the first',
+                                  'code': code, 'variant': v, 'requests': r['requests'][:6]})
+        for why, detail in vs:
+            viol.append({'why': why, 'hop': 1, 'hop_kind': 'e2e-%s/other-host' % ('repeat' if code in (307, 308) else 'redirect'),
+                         'detail': detail, 'case': {'e2e': [code, v]}})
+        if len(samples) < 2:
+            samples.append({'e2e': [code, v], 'requests': [[q['path'], q.get('hosthdr'), sorted(q.get('headers', {}))] for q in r['requests']]})
+    return len(jobs), nontriv, viol, disagreements, samples
+
+
 def correspondence(ctx):
     r = common.rng('c16')
     n = 1500 if not ctx.thorough else 60000
     cases = seed_cases() + [gen_case(r) for _ in range(n)]
     results, disagreements, dist, nontriv, evaluated = _run(cases)
     pick = [i for i in (0, 1, 2, len(cases) // 2, len(cases) - 1)]
+    e2e_n, e2e_nt, e2e_viol, e2e_dis, e2e_samples = _e2e(ctx)
+    disagreements += e2e_dis
+    dist['e2e_crawls'] = e2e_n
+    dist['e2e_crawls_crossing_hosts_with_state'] = e2e_nt
     return {
         'evaluations': evaluated,
         'distinct_nontrivial': len(nontriv),
@@ -560,15 +662,17 @@ def correspondence(ctx):
                 'generated URLs with user-info, IDN, IPv6, ports, encoded delimiters/CR/LF, relative and malformed Locations, cookie jar with '
                 'preloaded and chain-set cookies, --http-user login, proxy, POST, custom headers): model bytes of EVERY request and the way the '
                 'fetch ended compared with the implementation; non-trivial = DISTINCT byte sequences of fetches with >= 2 requests written where '
-                'a later request follows a host change, a 307/308 replay or an authentication retry, or carries Cookie/Authorization, and all URLs are url_clean',
+                'a later request follows a host change, a 307/308 replay or an authentication retry, or carries Cookie/Authorization, and the case is inside the theorems\' preconditions (url_clean, base_ok). In addition (not counted as evaluations) 10 end-to-end crawls of the real application over sockets (5 redirect codes x {URL credentials, 401 + global login}) across two virtual hosts: the property predicate on what the site server received',
         'samples': [{'url': cases[i]['url'], 'responses': cases[i]['responses'], 'end': results[i].get('end'),
-                     'requests': [h.get('sent') for h in results[i].get('hops', [])][:3]} for i in pick],
+                     'requests': [h.get('sent') for h in results[i].get('hops', [])][:3]} for i in pick] + e2e_samples,
         'input_distribution': dist,
         'oracle_samples': {'url_clean_checked_cases': dist['cases'] - dist['skipped_unparseable'],
-                           'url_clean_failed_cases(outside, F03)': dist['outside_url_clean'],
+                           'url_clean_failed_cases(outside)': dist['outside_url_clean'],
+                           'base_ok_checked_cases': dist['cases'] - dist['skipped_unparseable'],
+                           'base_ok_failed_cases(outside: user-supplied Host/Cookie/Authorization headers)': dist['outside_base_ok'],
                            'jar_answers_checked_for_CRLF': dist['jar_answers']},
         'disagreements': disagreements,
-        'impl_violations': _violations(cases, results),
+        'impl_violations': _violations(cases, results) + e2e_viol,
     }
 
 
@@ -579,22 +683,32 @@ def search(ctx, disagreements):
     r = common.rng('c16-search')
     cases += seed_cases() + [gen_case(r) for _ in range(15000)]
     results, _ = _impl(cases)
-    return _violations(cases, results)
+    return _violations(cases, results) + _e2e(ctx)[2]
 
 
 def replay(ctx, data):
     case = data['case']
+    if 'e2e' in case:
+        from harness.fakes import crawl
+        code, v = case['e2e']
+        return bool(_e2e_check(code, v, crawl.run_crawl(_e2e_spec(ctx, code, v)))[0])
     results, _ = _impl([case])
     return bool(check_case(case, results[0]))
 
 
-LEVEL_TEXT = ('Coq theorems C16_line_structure, C16_target, C16_one_host and C16_no_cross_host_state hold for EVERY request of EVERY fetch of the model: '
-              'all configurations, cookie-jar oracles, first URLs, parents, logins and all server chains of (status, Location) answers of any length '
-              '(induction over the hop list, invariant on the session state); closed under the global context. The model of the request construction '
-              'is hand-written and tied to the code on every run by evaluating it inside Coq (vm_compute) against the bytes the real WebSession/Stream '
-              'write to a scripted connection.')
+LEVEL_TEXT = ('Coq theorems, all closed under the global context, for EVERY request of EVERY fetch of the model - all configurations, cookie-jar oracles, '
+              'first URLs, parents, logins, proxy flags and all server chains of (status, Location) answers of any length over 301/302/303/307/308/401/other '
+              '(induction over the hop list with an invariant on the session state): C16_line_structure (request line + field lines + blank line; no CR/LF in any '
+              'line, no space or control character in the target, names are tokens) and C16_reading_unique (an independent CRLF/SP/colon reader reads any such head in '
+              'exactly one way); C16_target (target = path[?query] of the URL of THAT hop, the absolute URL when the exchange goes through a proxy); C16_one_host '
+              '(exactly one Host field in any spelling, equal to host[:non-default port] of the URL of that hop, replayed 307/308 requests included); '
+              'C16_no_cross_host_state (every Authorization value is built from the user-info of that hop\'s URL / the global login, every Cookie value is what the '
+              'jar answered for that hop\'s URL, a Referer made by wpull is the parent URL without user-info). Preconditions (stated, sampled on every run): url_clean '
+              'URL components (C10), request-factory fields with token names / CR-LF-free values / not named Host, Cookie, Authorization, CR-LF-free jar answers. '
+              'The model of the request construction is hand-written and tied to the code on every run by evaluating it inside Coq (vm_compute) against the bytes '
+              'the real WebSession/Stream write to a scripted connection, hop by hop.')
 LEVEL_NOTE = ('Trusted: Coq kernel + vm_compute; the hand-written model and this harness; URL parsing is an input (url_clean hypothesis, checked on every '
               'generated URL against the real parser; C10 proves it); the cookie jar is an oracle (which cookies belong to a URL is http.cookiejar\'s domain matching); '
-              'user-supplied option values are assumed CR/LF free and not named Host/Cookie/Authorization; request bodies are not modelled '
-              '(only method, Content-Type, Content-Length).')
+              'field-name normalisation (normalize_name) is not modelled - names enter the model as the real record holds them; user-supplied option values are '
+              'assumed CR/LF free and not named Host/Cookie/Authorization; request bodies are not modelled (only method, Content-Type, Content-Length).')
 TECHNIQUE = 'Coq proof by induction over the redirect/authentication hop list with a session-state invariant; vm_compute correspondence on captured wire bytes'
